@@ -3,6 +3,7 @@ package main
 import (
 	"fmt"
 	"go/ast"
+	"go/constant"
 	"go/token"
 	"go/types"
 	"sort"
@@ -51,28 +52,48 @@ func c08R1(p *Prog, r *Report) {
 		got := map[string]bool{}
 		defErr := false
 		ast.Inspect(fi.Decl, func(n ast.Node) bool {
-			sw, ok := n.(*ast.SwitchStmt)
-			if !ok || sw.Tag == nil {
-				return true
-			}
-			for _, c := range sw.Body.List {
-				cc := c.(*ast.CaseClause)
-				if len(cc.List) == 0 && len(cc.Body) > 0 {
-					if ret, ok := cc.Body[len(cc.Body)-1].(*ast.ReturnStmt); ok {
-						last := ret.Results[len(ret.Results)-1]
-						if id, isID := ast.Unparen(last).(*ast.Ident); !isID || id.Name != "nil" {
-							defErr = true
+			switch x := n.(type) {
+			case *ast.SwitchStmt:
+				if x.Tag == nil {
+					return true
+				}
+				for _, c := range x.Body.List {
+					cc := c.(*ast.CaseClause)
+					if len(cc.List) == 0 && len(cc.Body) > 0 {
+						if ret, ok := cc.Body[len(cc.Body)-1].(*ast.ReturnStmt); ok {
+							last := ret.Results[len(ret.Results)-1]
+							if id, isID := ast.Unparen(last).(*ast.Ident); !isID || id.Name != "nil" {
+								defErr = true
+							}
+						}
+					}
+					for _, e := range cc.List {
+						if tv, ok := info.Types[e]; ok && tv.Value != nil {
+							got[tv.Value.ExactString()] = true
 						}
 					}
 				}
-				for _, e := range cc.List {
-					if tv, ok := info.Types[e]; ok && tv.Value != nil {
-						got[tv.Value.ExactString()] = true
+			case *ast.BinaryExpr:
+				// if-form: s == EnumActionX || …
+				if x.Op == token.EQL {
+					if tv, ok := info.Types[x.Y]; ok && tv.Value != nil && tv.Value.Kind() == constant.String {
+						if _, isID := ast.Unparen(x.X).(*ast.Ident); isID {
+							got[tv.Value.ExactString()] = true
+						}
 					}
 				}
 			}
 			return true
 		})
+		// if-form: the function ends in an error return
+		if !defErr && len(fi.Decl.Body.List) > 0 {
+			if ret, ok := fi.Decl.Body.List[len(fi.Decl.Body.List)-1].(*ast.ReturnStmt); ok && len(ret.Results) > 0 {
+				last := ret.Results[len(ret.Results)-1]
+				if id, isID := ast.Unparen(last).(*ast.Ident); !isID || id.Name != "nil" {
+					defErr = true
+				}
+			}
+		}
 		return got, defErr, fi
 	}
 	v, vDef, vfi := collect("config.validateEnumAction")
@@ -353,10 +374,22 @@ func c08R2(p *Prog, r *Report) {
 			continue
 		}
 		okOf := func(lk *ssa.Lookup) func(ssa.Value) bool {
-			return func(c ssa.Value) bool {
-				ex, ok := c.(*ssa.Extract)
-				return ok && ex.Index == 1 && ex.Tuple == ssa.Value(lk)
+			var is func(c ssa.Value, depth int) bool
+			is = func(c ssa.Value, depth int) bool {
+				if ex, ok := c.(*ssa.Extract); ok {
+					return ex.Index == 1 && ex.Tuple == ssa.Value(lk)
+				}
+				// `ok` re-assigned by the second lookup: φ[ok of enum:map, ok of transformers]
+				if ph, ok := c.(*ssa.Phi); ok && depth < 2 {
+					for _, e := range ph.Edges {
+						if is(e, depth+1) {
+							return true
+						}
+					}
+				}
+				return false
 			}
+			return func(c ssa.Value) bool { return is(c, 0) }
 		}
 		// the transformer lookup happens only on the !ok edge of the map lookup
 		trGuarded := dominatedByEdge(lkTr.Block(), false, okOf(lkMap))
